@@ -166,3 +166,36 @@ Theorem old_protocol_refuted :
 Proof.
   exists [EvCall; EvTest; EvExit 7 0; EvDeliver]. eexists. split; [vm_compute; reflexivity|]. split; [reflexivity | discriminate].
 Qed.
+
+Lemma NoDup_app_l {A} (a b : list A) : NoDup (a ++ b) -> NoDup a.
+Proof.
+  induction a as [|x a IH]; intros H; [constructor|]. cbn in H. inversion H as [|? ? Hx Hr]; subst.
+  constructor; [|auto]. intros Hin. apply Hx. apply in_or_app. now left.
+Qed.
+
+(* ---------- what the executor sees: the results of wait() are an admissible completion oracle ----------
+   Model/Exec.v lets an arbitrary oracle choose which in-flight process "exits next" and reads its
+   status from [rc_of].  This is what justifies it: along ANY run of the protocol in which every
+   child exits once, the values wait() has handed out are pairwise distinct children, each with the
+   status it exited with, and nothing that has not exited. *)
+Theorem wait_results_admissible tr s :
+  rrun false rinit tr = Some s -> NoDup (map fst (exits_of tr)) ->
+  NoDup (map fst (returned s)) /\
+  (forall p rc, In (p, rc) (returned s) -> In (p, rc) (exits_of tr)) /\
+  (forall p rc rc', In (p, rc) (returned s) -> In (p, rc') (exits_of tr) -> rc = rc').
+Proof.
+  intros H Hnd. pose proof (exits_accounted tr s H) as Hp.
+  assert (Hnd' : NoDup (map fst (returned s ++ rcs s ++ zombies s))).
+  { eapply Permutation_NoDup; [apply Permutation_map; exact Hp | exact Hnd]. }
+  split; [|split].
+  - rewrite map_app in Hnd'. now apply NoDup_app_l in Hnd'.
+  - intros p rc Hin. eapply Permutation_in; [symmetry; exact Hp|]. apply in_or_app. left. exact Hin.
+  - intros p rc rc' Hin Hex.
+    assert (Hin' : In (p, rc) (exits_of tr)) by (eapply Permutation_in; [symmetry; exact Hp | apply in_or_app; left; exact Hin]).
+    clear - Hnd Hin' Hex. induction (exits_of tr) as [|[q r] l IH]; [destruct Hex|]. cbn in Hnd. inversion Hnd as [|? ? Hq Hl]; subst.
+    destruct Hin' as [E1|H1], Hex as [E2|H2].
+    + congruence.
+    + inversion E1; subst. exfalso. apply Hq. apply (in_map fst) in H2. exact H2.
+    + inversion E2; subst. exfalso. apply Hq. apply (in_map fst) in H1. exact H1.
+    + now apply IH.
+Qed.
